@@ -306,3 +306,52 @@ func runC20StalledDelegate(run *Run, iter int) (out []*c01Result) {
 	}
 	return
 }
+
+// runC20OnlyPushPull: a configuration in which anti-entropy is the only periodic activity (probing and
+// gossip are switched off by zero intervals). After Shutdown no background goroutine may be left and
+// nothing may be dialled any more.
+func runC20OnlyPushPull(run *Run, seed int64, withPeer bool) (out []*c01Result) {
+	fail := func(key, f string, a ...any) {
+		out = append(out, &c01Result{"C20/" + key, fmt.Sprintf(f, a...)})
+	}
+	rig, err := NewRig(RigOpts{Seed: seed, Spec: NodeSpec{Name: "V", IP: "10.9.9.9", Mutate: func(cf *memberlist.Config) {
+		cf.ProbeInterval = 0
+		cf.GossipInterval = 0
+		cf.PushPullInterval = time.Second
+		cf.TCPTimeout = 2 * time.Second
+	}}})
+	if err != nil {
+		fail("harness/create", "%v", err)
+		return
+	}
+	defer rig.Close()
+	V := rig.V
+	if withPeer {
+		x := rig.AddPeer("x", "10.9.1.1", 7946)
+		x.OnStream = func(c *ConnEnd) {
+			_ = ReadAllUntil(c, 20*time.Millisecond)
+			_, _ = c.Write(BuildPushPull(false, []WPushNodeState{x.Self(1)}, nil))
+			time.Sleep(50 * time.Millisecond)
+			c.Close()
+		}
+		rig.Introduce(x, 1)
+	}
+	Settle(3 * time.Second)
+	if err := V.ML().Shutdown(); err != nil {
+		fail("shutdown-error", "%v", err)
+	}
+	V.Stopped = true
+	dialsAtShutdown := V.EP.DialsClosed.Load()
+	run.Cell("only-pushpull", fmt.Sprintf("peer=%v", withPeer))
+	Settle(5*time.Second + V.Conf.TCPTimeout)
+	for _, fp := range rig.Peers {
+		fp.Stop()
+	}
+	if g := MemberlistGoroutines(); len(g) > 0 {
+		fail("goroutine-after-shutdown", "probing and gossip off, push/pull every second: %d goroutines with memberlist frames are still alive 7 s after Shutdown: %.300s", len(g), g[0])
+	}
+	if d := V.EP.DialsClosed.Load() - dialsAtShutdown; d > 0 {
+		fail("traffic-after-shutdown", "%d dial attempts on the closed transport after Shutdown had returned (push/pull keeps running)", d)
+	}
+	return
+}
